@@ -2,6 +2,7 @@ package builder
 
 import (
 	"fmt"
+	"math/big"
 
 	"github.com/dave/jennifer/jen"
 	"github.com/jmattheis/goverter/config"
@@ -68,7 +69,7 @@ func (*Enum) Build(gen Generator, ctx *MethodContext, sourceID *xtype.JenID, sou
 		}
 
 		sourceValue := sourceEnum.Members[sourceName]
-		if previous, ok := sourceTargetMapping[sourceValue]; ok {
+		if previous, ok := sourceTargetMapping[enumValueKey(sourceValue)]; ok {
 			if enumTargetMismatches(previous, targetEnum, targetName) {
 				return nil, nil, enumTargetMismatchError(targetEnum, sourceName, targetName, previous, sourceValue).Lift(&Path{
 					SourceType: fmtEnumValue(sourceEnum, sourceName),
@@ -83,7 +84,7 @@ func (*Enum) Build(gen Generator, ctx *MethodContext, sourceID *xtype.JenID, sou
 					fmtEnumValue(sourceEnum, previous.Source), fmtEnumValue(targetEnum, previous.Target))))
 			}
 		} else {
-			sourceTargetMapping[sourceValue] = enumMapping{Source: sourceName, Target: targetName}
+			sourceTargetMapping[enumValueKey(sourceValue)] = enumMapping{Source: sourceName, Target: targetName}
 			cases = append(cases, jen.Case(sourceQual).Add(body))
 		}
 	}
@@ -171,7 +172,7 @@ func executeTransformers(transformers []config.ConfiguredTransformer, source, ta
 
 func enumTargetMismatches(previous enumMapping, targetEnum *xtype.Enum, targetName string) bool {
 	if !config.IsEnumAction(targetName) && !config.IsEnumAction(previous.Target) {
-		return targetEnum.Members[previous.Target] != targetEnum.Members[targetName]
+		return enumValueKey(targetEnum.Members[previous.Target]) != enumValueKey(targetEnum.Members[targetName])
 	}
 	return targetName != previous.Target
 }
@@ -197,6 +198,22 @@ func fmtEnumValue(targetEnum *xtype.Enum, targetName string) string {
 		return fmt.Sprintf("%s(action)", targetName)
 	}
 	return fmt.Sprintf("%s(%v)", targetName, targetEnum.Members[targetName])
+}
+
+// enumValueKey returns a comparable representation of a constant value:
+// go/constant hands out pointers to math/big values for floats and integers
+// that do not fit into 64 bits, which never compare equal.
+func enumValueKey(v interface{}) interface{} {
+	switch cast := v.(type) {
+	case *big.Int:
+		return "big.Int:" + cast.String()
+	case *big.Rat:
+		return "big.Rat:" + cast.String()
+	case *big.Float:
+		return "big.Float:" + cast.Text('g', -1)
+	default:
+		return v
+	}
 }
 
 type enumMapping struct {
